@@ -180,7 +180,7 @@ def run(
     m = _RE_DEPTH.search(out)
     if m:
         res.depth = int(m.group(1))
-    res.violated = _RE_INV.findall(out)
+    res.violated = _RE_INV.findall(out) + re.findall(r"The invariant of (\S+) is equal to FALSE", out)
     for m in re.finditer(r"Action property (\S+) is violated", out):
         res.violated.append(m.group(1))
     if "Temporal properties were violated" in out:
@@ -197,7 +197,7 @@ def run(
         # violations are reported as "Error: Invariant ... is violated" too: keep only the others
         res.errors = [x for x in res.errors if not re.search(
             r"Invariant \S+ is violated|Deadlock reached|Assumption .* is false|property \S* ?(is|were) violated|"
-            r"Temporal properties were violated|The behavior up to this point|The following behavior", x)]
+            r"Temporal properties were violated|The behavior up to this point|The following behavior|The invariant of \S+ is equal to FALSE", x)]
     if res.violated or res.deadlock:
         res.trace = re.findall(r"^State \d+:.*?(?=^State \d+:|^\d+ states generated|\Z)", out, re.S | re.M)
     parse_fail = "Parsing or semantic analysis failed" in out or "Could not find module" in out or "***Parse Error***" in out
